@@ -16,7 +16,7 @@
    and obey Malus' law; rotating an element = conjugating with the rotation matrix; M(J1 J2) = M(J1) M(J2); a unitary J has an
    orthogonal M with M00 = 1; the Pauli coefficients reconstruct J.  Variant "vvr-pinned" (the (1,1) entry of the
    -i cos(delta/2) I term never written) must violate Unitary.                                                         *)
-EXTENDS Integers, Sequences, FiniteSets, TLC, Json, Rat, ModQ
+EXTENDS Integers, Sequences, FiniteSets, TLC, Json, Rat, ModQ, Gauss
 
 CONSTANTS Angles,      \* set of <<<<cn, cd>>, <<sn, sd>>>> rational (cos, sin)
           RAngles,     \* rotations applied to the vortex retarder
@@ -27,30 +27,6 @@ CONSTANTS Angles,      \* set of <<<<cn, cd>>, <<sn, sd>>>> rational (cos, sin)
 VARIABLES el, done,
           jm, mu      \* the element's Jones and Mueller matrices, computed ONCE by the Compute step
 vars == <<el, done, jm, mu>>
-
-\* ---- Q(i)
-G(re, im) == <<re, im>>
-GQ(r) == G(MRat(r[1], r[2]), MZero)
-GZero == G(MZero, MZero)
-GOne == G(MOne, MZero)
-GI == G(MZero, MOne)
-GAdd(a, b) == G(MAdd(a[1], b[1]), MAdd(a[2], b[2]))
-GSub(a, b) == G(MSub(a[1], b[1]), MSub(a[2], b[2]))
-GNeg(a) == G(MNeg(a[1]), MNeg(a[2]))
-GMul(a, b) == G(MSub(MMul(a[1], b[1]), MMul(a[2], b[2])), MAdd(MMul(a[1], b[2]), MMul(a[2], b[1])))
-GConj(a) == G(a[1], MNeg(a[2]))
-GHalf(a) == G(MMul(a[1], MRat(1, 2)), MMul(a[2], MRat(1, 2)))
-\* ---- matrices: functions [1..n -> [1..n -> Q(i)]]
-\* TLCEval forces the product to an explicit value once (otherwise every entry is recomputed at every later use)
-MatMul(A, B, n) == TLCEval([i \in 1..n |-> [j \in 1..n |->
-     IF n = 2 THEN GAdd(GMul(A[i][1], B[1][j]), GMul(A[i][2], B[2][j]))
-     ELSE GAdd(GAdd(GMul(A[i][1], B[1][j]), GMul(A[i][2], B[2][j])), GAdd(GMul(A[i][3], B[3][j]), GMul(A[i][4], B[4][j])))]])
-Herm(A, n) == TLCEval([i \in 1..n |-> [j \in 1..n |-> GConj(A[j][i])]])
-Transp(A, n) == TLCEval([i \in 1..n |-> [j \in 1..n |-> A[j][i]]])
-Ident(n) == [i \in 1..n |-> [j \in 1..n |-> IF i = j THEN GOne ELSE GZero]]
-Mat2(a, b, c, d) == TLCEval(<<<<a, b>>, <<c, d>>>>)
-MScal(g, A, n) == TLCEval([i \in 1..n |-> [j \in 1..n |-> GMul(g, A[i][j])]])
-MAddM(A, B, n) == TLCEval([i \in 1..n |-> [j \in 1..n |-> GAdd(A[i][j], B[i][j])]])
 
 \* ---- angles
 Cs(a) == GQ(a[1])
